@@ -134,10 +134,19 @@ def c05_2(ctx: Ctx) -> RuleResult:
                 names = set()
                 cur = parent(call_)
                 in_case = False
+                child_ = call_
                 while cur is not None and cur is not init.node:
                     if isinstance(cur, ast.match_case):
                         in_case = True
                         names |= {x.id for x in ast.walk(cur) if isinstance(x, ast.Name) and x.id in models}
+                    if isinstance(cur, ast.If):
+                        # the branch of a method dispatch (a `match` in if / elif form): the options model built in the same branch
+                        branch = cur.body if any(child_ is s_ or any(child_ is y for y in ast.walk(s_)) for s_ in cur.body) else cur.orelse
+                        found_ = {x.id for s_ in branch if not isinstance(s_, ast.If) for x in ast.walk(s_) if isinstance(x, ast.Name) and x.id in models}
+                        if found_:
+                            in_case = True
+                            names |= found_
+                    child_ = cur
                     cur = parent(cur)
                 st_ = call_
                 while parent(st_) is not None and not isinstance(st_, ast.stmt):
